@@ -130,6 +130,33 @@ def src_arff2(scratch):
     return Built(SupervisedSimulation(ArffSource(ListSource(lines)), 'y'), {'lines': lines})
 
 
+def _cat_rows(orders):
+    """rows whose nominal features have the SAME level set declared in the given orders (state that differs only in order)"""
+    vals = ['u', 'v', 'u', 'u', 'v']
+    return [[Categorical(vals[(i + k) % 5], list(o)) for k, o in enumerate(orders)] + [i + 0.5] for i in range(N)]
+
+
+def _sup_cat(orders):
+    X = _cat_rows(orders)
+    Y = ['a', 'b', 'a', 'c', 'b']
+    return Built(SupervisedSimulation(X, Y), {'X': X, 'Y': Y})
+
+
+def src_lamcat(scratch):
+    ctx = _cat_rows([('u', 'v'), ('v', 'u')])
+    _, act, rwd = _lam_tables()
+    return Built(_lambda_env(ctx, act, rwd), {'contexts': ctx, 'actions': act, 'rewards': rwd})
+
+
+ARFFCC_LINES = ['@relation t', '@attribute x numeric', '@attribute c {u,v}', '@attribute d {v,u}', '@attribute y {a,b,c}', '@data',
+                '1,u,v,a', '2,v,v,b', '3,u,u,a', '4,v,u,c', '5,u,v,b']
+
+
+def src_arffcc(scratch):
+    lines = list(ARFFCC_LINES)
+    return Built(SupervisedSimulation(ArffSource(ListSource(lines)), 'y'), {'lines': lines})
+
+
 def src_lin(scratch):
     return Built(LinearSyntheticSimulation(N, 3, 2, 2, seed=1))
 
@@ -276,6 +303,11 @@ SOURCES = {
     'lam2h':    (src_lam2h,    'LambdaSimulation(2 one-hot actions)', {'sim'}),
     'lam1a':    (src_lam1a,    'LambdaSimulation(1 action)',          {'sim'}),
     'arff2':    (src_arff2,    'SupervisedSimulation(source, 2 classes)', {'sim'}),
+    'supXYcat': (lambda sc: _sup_cat([('u', 'v'), ('v', 'u')]), 'SupervisedSimulation(X,Y) with nominal features', {'sim'}),
+    'supXYcA':  (lambda sc: _sup_cat([('u', 'v')]),             'SupervisedSimulation(X,Y) with nominal features', {'sim'}),
+    'supXYcB':  (lambda sc: _sup_cat([('v', 'u')]),             'SupervisedSimulation(X,Y) with nominal features', {'sim'}),
+    'lamcat':   (src_lamcat,   'LambdaSimulation with nominal features', {'sim'}),
+    'arffcc':   (src_arffcc,   'SupervisedSimulation(source) with nominal features', {'sim'}),
     'lam3':     (src_lam3,     'LambdaSimulation',                    {'sim'}),
     'lam40':    (src_lam40,    'LambdaSimulation(40 interactions)',   {'sim'}),
     'lam1k':    (src_lam1k,    'LambdaSimulation(1001 interactions)', {'sim'}),
@@ -294,7 +326,9 @@ SOURCES = {
 
 SRC_LIN = ('lin0x', 'lin0a', 'lin0xr', 'lin0ar', 'linF0x', 'linF0ar', 'linr', 'lind', 'linFd')
 SRC_ACT = ('lam1a', 'lam2h', 'arff2')      # action-count alphabet 1 / 2 (3 and more: the other sources)
-SRC_BIG = ('lam3', 'lam40', 'lam1k') + SRC_LIN + SRC_ACT       # explored by their own plans (see C04.pipelines)
+SRC_CAT = ('supXYcat', 'lamcat', 'arffcc')      # nominal features with one level set declared in two orders
+CAT_PAIRS = [('supXYcA', 'supXYcB'), ('supXYcB', 'supXYcA'), ('supXYcat', 'lamcat')]
+SRC_BIG = ('lam3', 'lam40', 'lam1k', 'supXYcA', 'supXYcB') + SRC_LIN + SRC_ACT + SRC_CAT       # explored by their own plans (see C04.pipelines)
 
 
 def build_source(name, scratch):
